@@ -14,7 +14,7 @@ VERIF = os.path.dirname(os.path.dirname(os.path.abspath(__file__)))
 REPO = os.environ.get("VERIF_REPO", "/repo")
 SPEC = os.path.join(VERIF, "spec")
 BUILD = os.path.join(VERIF, "build")
-EVID = os.path.join(VERIF, "evidence")
+EVID = os.environ.get("VERIF_EVIDENCE_DIR") or os.path.join(VERIF, "evidence")
 JAR = "/opt/veriftools/tla/tla2tools.jar"
 CMJAR = "/opt/veriftools/tla/CommunityModules-deps.jar"
 NOISE = re.compile(r"^(Parsing|Semantic|Linting|WARNING: conda|Picked up JAVA)")
